@@ -1,9 +1,9 @@
 package main
 
 import (
-	"go/parser"
 	"fmt"
 	"go/constant"
+	"go/parser"
 	"go/token"
 	"go/types"
 	"sort"
@@ -46,42 +46,43 @@ type loopInfo struct {
 	wall      bool
 	variant   Term
 	entryOv   map[ssa.Value]Term // header phis on the entering edge (for pre(...) in invariants)
-	heldPre   Term // HELD at loop entry (lock discipline: iterations are lock-balanced)
+	heldPre   Term               // HELD at loop entry (lock discipline: iterations are lock-balanced)
 }
 
 // FT translates one SSA function into a passive-form VC and its obligations.
 type FT struct {
 	assertLines map[*Clause][]int
 	assertFired map[string]bool
-	eng     *Engine
-	fn      *ssa.Function
-	key     string
-	con     *FuncContract
-	d       *Decls
-	heaps   map[string]*heapInfo
-	asserts []string
-	obls    []*Obl
-	ctr     int
-	env     map[ssa.Value][]Term
-	locs    map[ssa.Value]*Loc
-	guard   map[*ssa.BasicBlock]Term
-	out     map[*ssa.BasicBlock]*State
-	edge    map[[2]int]Term
-	loops   map[*ssa.BasicBlock]*loopInfo
-	entry   *State
-	defers  []*deferRec
-	notes   map[string]bool
-	errs    []string
-	oblSeen map[string]int
-	ghostIn map[string]Term
-	curBlk  *ssa.BasicBlock
-	held    map[string]bool
-	stateNow *State
-	afterLock *State
-	dynSelf   *SpecVal
-	nonFresh  map[string]bool
-	curGuard  Term
-	unwinding bool
+	eng         *Engine
+	fn          *ssa.Function
+	key         string
+	con         *FuncContract
+	d           *Decls
+	heaps       map[string]*heapInfo
+	asserts     []string
+	obls        []*Obl
+	ctr         int
+	env         map[ssa.Value][]Term
+	privMaps    map[ssa.Value]bool // maps made here that never escape (see privateMaps)
+	locs        map[ssa.Value]*Loc
+	guard       map[*ssa.BasicBlock]Term
+	out         map[*ssa.BasicBlock]*State
+	edge        map[[2]int]Term
+	loops       map[*ssa.BasicBlock]*loopInfo
+	entry       *State
+	defers      []*deferRec
+	notes       map[string]bool
+	errs        []string
+	oblSeen     map[string]int
+	ghostIn     map[string]Term
+	curBlk      *ssa.BasicBlock
+	held        map[string]bool
+	stateNow    *State
+	afterLock   *State
+	dynSelf     *SpecVal
+	nonFresh    map[string]bool
+	curGuard    Term
+	unwinding   bool
 }
 
 func (ft *FT) note(s string) { ft.notes[s] = true }
@@ -1215,7 +1216,6 @@ func (ft *FT) assertAt(ins ssa.Instruction, st *State) {
 	}
 }
 
-
 // lockExprTerm evaluates a contract expression `addr(p.f)` naming a mutex in the given context.
 func (ft *FT) lockExprTerm(ctx *SpecCtx, txt string) (Term, bool) {
 	e, err := parser.ParseExpr(txt)
@@ -1228,7 +1228,6 @@ func (ft *FT) lockExprTerm(ctx *SpecCtx, txt string) (Term, bool) {
 	}
 	return v.T, true
 }
-
 
 // lockDiscipline: the implicit lock-discipline assumptions and obligations apply to this function.
 func (ft *FT) lockDiscipline() bool {
